@@ -35,8 +35,8 @@ def r_unitdir(idx, rep, rule="R-UNITDIR"):
             want = [u(e) for e in rets[-1].value.elts[1:]] if rets and isinstance(rets[-1].value, ast.Tuple) and len(rets[-1].value.elts) == 4 else None
             rep.check(tg == want, rule, f.key + "|unpack %s" % call_name(st.value), "%s:%d" % (f.module.relpath, st.lineno),
                       "%s's (depth, direction, position) is unpacked into %s" % (call_name(st.value), tg))
-    ok = bool(rets) and isinstance(rets[-1].value, ast.Tuple) and len(rets[-1].value.elts) == 4 and all(isinstance(e, ast.Name) for e in rets[-1].value.elts) \
-        and isinstance(s, tuple) and s[1] in (NONNEG, ZERO) and s[2] in (UNIT0, ZERO)
+    # (the order is judged by the KINDS that reach each slot on every return path, not by how the returned values are called)
+    ok = bool(rets) and isinstance(s, tuple) and len(s) == 4 and s[1] in (NONNEG, ZERO) and s[2] in (UNIT0, ZERO)
     rep.check(ok, rule, f.key + "|return order", f.where, "mpr_penetration must return (intersection, depth, penetration_direction, contact_position)")
     # touching contact: zero direction when |depth| < EPSILON
     p = idx.func(M + "::_penetration_info")
@@ -51,11 +51,21 @@ def r_unitdir(idx, rep, rule="R-UNITDIR"):
     # contact position: same barycentric weights for v1 and v2, midpoint
     c = idx.func(M + "::_contact_position")
     ps = c.params()
-    dots = [st for st in iter_stmts(c.node.body) if isinstance(st, ast.Assign) and isinstance(st.value, ast.Call) and isinstance(st.value.func, ast.Attribute)
-            and st.value.func.attr == "dot" and u(st.targets[0]) in (ps[1], ps[2])]
-    ok = len(dots) == 2 and len({u(d.value.func.value) for d in dots}) == 1 and {u(d.value.args[0]) for d in dots} == {ps[1], ps[2]} and all(u(d.targets[0]) == u(d.value.args[0]) for d in dots)
+    # the returned value is the midpoint 0.5 * (w . X + w . Y) with ONE weight vector w and {X, Y} = the two pre-image arrays, whatever the two
+    # weighted sums are called
     rets = [st for st in iter_stmts(c.node.body) if isinstance(st, ast.Return)]
-    ok = ok and bool(rets) and u(resolved(c.node, rets[-1].value)).replace(" ", "") in ("0.5*(%s+%s)" % (ps[1], ps[2]), "(%s+%s)/2" % (ps[1], ps[2]), "(%s+%s)*0.5" % (ps[1], ps[2]))
+    ok = False
+    if rets:
+        rv = resolved(c.node, rets[-1].value)
+        half = None
+        if isinstance(rv, ast.BinOp) and isinstance(rv.op, ast.Mult):
+            half = rv.right if const(rv.left) == 0.5 else (rv.left if const(rv.right) == 0.5 else None)
+        elif isinstance(rv, ast.BinOp) and isinstance(rv.op, ast.Div) and const(rv.right) in (2, 2.0):
+            half = rv.left
+        if isinstance(half, ast.BinOp) and isinstance(half.op, ast.Add):
+            terms = [resolved(c.node, half.left), resolved(c.node, half.right)]
+            if all(isinstance(t_, ast.Call) and isinstance(t_.func, ast.Attribute) and t_.func.attr == "dot" and len(t_.args) == 1 for t_ in terms):
+                ok = u(terms[0].func.value) == u(terms[1].func.value) and {u(terms[0].args[0]), u(terms[1].args[0])} == {ps[1], ps[2]}
     rep.check(ok, rule, c.key + "|same weights on both pre-image arrays, midpoint", c.where,
               "the contact position must be 0.5 * (w . v1 + w . v2) with one weight vector w")
 
